@@ -578,7 +578,6 @@ func (p *Prog) checkReadLoop(f *Func, fs *ast.ForStmt, connObj types.Object) []s
 	return problems
 }
 
-
 // checkQueuedPacketsOwnTheirBytes: shared by C14 R14.9 and C07 R7.6.
 func checkQueuedPacketsOwnTheirBytes(p *Prog, r *Report) {
 	n := 0
@@ -672,7 +671,6 @@ func checkQueuedPacketsOwnTheirBytes(p *Prog, r *Report) {
 		r.Fail("readers with a reused buffer", "", "no loop calling readStreamingPacket with a buffer declared outside it (rule instance lost)")
 	}
 }
-
 
 // checkReadStreamingPacket: the read side of the framing (C14 R14.1, shared with C15 R15.11).
 func checkReadStreamingPacket(p *Prog, r *Report, rd *Func, hdr *big.Int) {
